@@ -264,6 +264,25 @@ def stepLine (d : DState) (op impl : String) : DState × String :=
         | some b => (d, answer (showState d.s) b ["opened"])
         | none => (d, answer (showState d.s) "ok" ["opened", if d.s.commits.isEmpty then "open-empty" else "open-existing",
                       if l.torn.isEmpty then "open-clean" else "open-over-torn-snapshot"])
+  | ["readerheld", rid, o, nd, mr] =>
+      -- the writer is closed, reader `rid` is not: handles open / file segments the reader references / least reference count
+      let num := fun (w : String) (k : Nat) => ((w.drop k).toString.toInt?).getD (-1)
+      let opn := num o 5; let need := num nd 5; let minref := num mr 7
+      let heldInModel := d.s.readers.any (fun r => some r.rid == rid.toNat?)
+      let res := if d.sync then showState d.s else impl
+      if opn < need || minref < 1 then
+        (d, answer res s!"bad:handle-released-under-open-reader reader={rid} {o} {nd} {mr}" ["readerheld"])
+      else if opn > need then (d, answer res s!"bad:handles-not-released-after-close {o} {nd}" ["readerheld"])
+      else if d.sync && !heldInModel then (d, answer "REJECT:reader-not-open-in-model" "ok" [])
+      else (d, answer res "ok" ["readerheld"])
+  | ["readerquery", _, q] =>
+      let res := if d.sync then showState d.s else impl
+      if q == "ok" then (d, answer res "ok" ["readerquery"])
+      else (d, answer res s!"bad:open-reader-unusable-after-writer-close {q}" ["readerquery"])
+  | ["readerclosed", _, o, db] =>
+      let res := if d.sync then showState d.s else impl
+      if o == "open=0" && db == "dbl=0" then (d, answer res "ok" ["readerclosed"])
+      else (d, answer res s!"bad:handles-not-released-exactly-once {o} {db}" ["readerclosed"])
   | "closeret" :: who :: lk :: hs :: _ =>
       -- a Close call returned; the harness probed the pid file lock and counted handles at that instant
       let hp := ((hs.drop 8).toString.splitOn "/")
